@@ -1,4 +1,4 @@
-HOOK_COMMITS = ["9db45bf"]
+HOOK_COMMITS = ["9db45bf", "af399ae"]
 ENGINES = [
     {"name": "cli-driver", "path": "/verif/driver/checks/c12.py, c13.py (+ CLI legs of c01, c05)",
      "serves_properties": ["C01", "C05", "C12", "C13"], "kind_free_text": "the real release binary (built from /repo's working tree into /verif/target/cli), one child process per case, exit status / stdout / stderr / files observed, faults injected through the file system, /dev/full, closed descriptors and a setuid child"},
@@ -138,4 +138,41 @@ CHECKS = {
         "note": _BASE_NOTE + " Importers are real files (code given with -e has no directory of its own).",
         "design_ref": "DESIGN.md section 2 C13",
     },
+}
+
+
+# legs added after the second round of seeded changes: appended to technique / level text by mkmanifest.py
+ADDED = {
+    "C01": ("; whole programs from the other checks' generators (injected scoping faults, renamed binders, binder matrix, objectRemoveKey histories through 28 consumers) evaluated for the outcome class",
+            " Also: whole programs from the other checks' generator families, judged for the outcome class only."),
+    "C02": ("; operand matrix (every operator/construct x 12 operand values of all types), ill-typed sub-expression injection, nesting towers for $/self",
+            " Also: an exhaustive operand-type matrix for every operator and construct, typed programs with one ill-typed sub-expression, and nesting towers (depth 1-5 x 10 carriers x 8 reader positions)."),
+    "C03": ("; the scripted-heap node keeps its edges in four containers (Vec, boxed slice, Option+Vec, OnceCell+boxed slice) and histories include bursts of 20-70 edges; wide-array schedule workloads",
+            " The scripted heap drives every container tracer of the collector (four edge containers rotated over the nodes) and wide nodes."),
+    "C04": ("; 120-entry laziness table from upstream's definitions incl. generated '*' precision cases",
+            " The laziness table covers formatting ('*' precision under %s/%c), hidden fields in every manifester/comparison and structure-only builtins."),
+    "C05": ("; history objects (inheritance + repeated objectRemoveKey + sharing + prior observation) through every emitter against a layer-deletion model",
+            " Also: objects that are the result of a construction history, against the layer-deletion model's visible fields."),
+    "C06": ("; boundary texts for every text->number path (every length around the overflow threshold); structured YAML with anchors/aliases over out-of-range scalars",
+            " Also: texts whose value crosses the largest double at their last digit for every text->number path, and YAML documents with anchors on keys/values/items/collections and aliases in every position."),
+    "C07": ("; objectRemoveKey/inheritance histories against a layer-deletion model written from the statement",
+            " Also: construction histories (same key removed repeatedly, removal results on either side of +, shared sub-objects, prior observation) against the layer-deletion model: manifest, objectFields(All), length, objectHas(All), in, hidden values, ==, objectValues, objectKeysValues."),
+    "C09": ("; binder matrix: every scope kind x every pair of binder slots x nested scopes x 8 live/dead contexts",
+            " Also: a binder matrix of 2016 programs (every scope kind x slot pair equal/distinct x 8 contexts), verdicts by the scope oracle."),
+    "C10": ("; thunk chains through inheritance layers (13 reader forms x 3 constructions) and lazily built containers; import cycles of real files through the CLI in 11 directory layouts",
+            " Also: 49 layer / lazy-container chain shapes under the same laws, and import cycles (1-4 files, 11 layouts, 5 import positions, 4 limits) which must always be reported as infinite recursion."),
+    "C11": ("; matrix library: delayed-computation kind x failure kind, wrappers x holders, observed shallowly/deeply/again in random histories",
+            " Also: a generated matrix library of 515 fields (every way a delayed computation arises x every way it fails; failing objects behind no-op wrappers inside holders)."),
+    "C12": ("; framing-sensitive strings, -m with -S/-y, faults at the k-th step of multi-step outputs",
+            " Also: strings that begin/end like the output framing, -m combined with -S / -y, and faults at exactly the k-th file / element of a multi-step output."),
+    "C14": ("; giant tokens (span lengths around 2^25 and 2^26 bytes) via run-length encoded inputs, expected tokens by construction",
+            " Also: one giant token of each of 9 kinds at span lengths 2^25-1 .. 2^26+1 (extents and payload CRC by construction)."),
+    "C15": ("; giant nodes: one inter-token gap widened to ~2^25 / ~2^26 bytes, dump compared with the shifted small dump",
+            " Also: generated programs with one gap widened to ~32 / ~64 MiB: every node extent must equal the small program's, shifted."),
+    "C17": ("; dataflow DAGs with aliased operands; re-entrant comparisons (lazy deciding elements that run sort/set/fold themselves)",
+            " Also: dataflow programs whose operands are earlier results or the same value, and comparisons that re-enter sort/set/fold through lazy elements."),
+    "C19": ("; every mismatch through std.format, % and std.mod; directive-free format strings x argument shapes",
+            " Count/type/key mismatches are checked through all three entry points, including format strings without directives."),
+    "C20": ("; sign/prefix grid for the integer parsers; the whole RFC 8259 number grammar for parseJson and parseYaml==parseJson",
+            " Also: a 29 x 15 x 10 prefix/body/suffix grid for parseInt/Octal/Hex and the complete JSON number grammar (e/E, exponent signs, leading zeros) alone, in arrays and in objects."),
 }
